@@ -5,3 +5,4 @@ Definition k_flow_read_asn1_utf8_string : pfun :=
     SAssign ["raw_str"; "consumed"] (PCall "_validate_tag/header,hint" [(PName "data"); (PName "tag"); (PCall "ASN1Tag.universal_tag" [(PName "TypeTagNumber.UTF8_STRING"); (PBool false)]); (PName "header"); (PName "hint")]);
     SReturn (PTuple [(PMeth "decode" (PMeth "tobytes" (PName "raw_str") []) [(PStr [117; 116; 102; 45; 56])]); (PName "consumed")])
   ] |}.
+Definition k_flow_read_asn1_utf8_string_defaults : list (string * pexp) := [("tag", PNone); ("header", PNone); ("hint", PNone)].
